@@ -3,6 +3,7 @@ package main
 import (
 	"crypto/md5"
 	"encoding/base64"
+	"fmt"
 	"math/rand"
 
 	"verif/harness/internal/gcs"
@@ -217,6 +218,7 @@ type gcsProfile struct {
 	wList    float64
 	fewNames int
 	maxResum int
+	wBatch   float64
 }
 
 func genGcsProgram(r *rand.Rand, p gcsProfile) []gcs.Op {
@@ -231,11 +233,37 @@ func genGcsProgram(r *rand.Rand, p gcsProfile) []gcs.Op {
 	}
 	g := ggen{r: r, names: pool[:k]}
 	prog := []gcs.Op{{Ev: "CreateBucket", B: gcsBuckets[0]}}
-	total := p.wUpload + p.wResum + p.wPatch + p.wDelete + p.wRead + p.wCompose + p.wCopy + p.wList
+	total := p.wUpload + p.wResum + p.wPatch + p.wDelete + p.wRead + p.wCompose + p.wCopy + p.wList + p.wBatch
 	for len(prog) < p.n {
 		x := g.r.Float64() * total
 		b, n := g.bucket(), g.name()
 		switch {
+		case x >= total-p.wBatch:
+			// a batch of two to five deletes / metadata reads / patches / bucket reads, some on the same object
+			op := gcs.Op{Ev: "Batch"}
+			for k, np := 0, 2+g.pick(4); k < np; k++ {
+				pn := g.name()
+				if k > 0 && g.chance(0.4) && len(op.Parts[k-1].N) > 0 {
+					pn = op.Parts[k-1].N
+				}
+				part := gcs.Op{B: b, N: pn, Conds: gcs.NoConds()}
+				switch g.pick(5) {
+				case 0, 1:
+					part.Ev, part.Conds = "Delete", g.conds(p.pCond)
+				case 2:
+					part.Ev = "GetMeta"
+				case 3:
+					part.Ev, part.Conds, part.Meta = "Patch", g.conds(p.pCond), g.meta()
+				default:
+					part.Ev, part.N = "GetBucket", nil
+					if g.chance(0.3) {
+						part.B = j.S("no-such-bucket")
+					}
+				}
+				part.Cid = j.S([]string{"", fmt.Sprintf("<id+%d>", k), fmt.Sprintf("part-%d", k)}[g.pick(3)])
+				op.Parts = append(op.Parts, part)
+			}
+			prog = append(prog, op)
 		case x < p.wUpload:
 			prog = append(prog, g.upload(b, n, p.pCond))
 		case x < p.wUpload+p.wResum:
